@@ -286,4 +286,46 @@ theorem placeCols_get_other (m n : Nat) (idx : List Nat) (cols : List Vec) (j : 
   rw [h]
   simp [hj]
 
+/-! ### `_compute_variable_indices` and `split_array_to_dict_of_arrays` -/
+
+/-- Closed form of the global indices: for each variable `v` (in order) its selected local
+    components shifted by the sum of the sizes of the previous variables. -/
+theorem globalIndices_spec (sizes : List Nat) (sels : List Sel) (pos : Nat) :
+    globalIndices sizes sels pos =
+      (List.range sizes.length).flatMap (fun v =>
+        (selLocal (sizes.getD v 0) (sels.getD v none)).map (· + (pos + (sizes.take v).sum))) := by
+  induction sizes generalizing sels pos with
+  | nil => simp [globalIndices]
+  | cons s ss ih =>
+    rw [globalIndices, ih, List.length_cons, List.range_succ_eq_map, List.flatMap_cons,
+      List.flatMap_map]
+    congr 1
+    · cases sels <;> simp
+    · apply List.flatMap_congr
+      intro v _
+      cases sels with
+      | nil => simp [Nat.add_assoc]
+      | cons a t => simp [Nat.add_assoc]
+
+theorem mem_globalIndices (sizes : List Nat) (sels : List Sel) (g : Nat) :
+    g ∈ globalIndices sizes sels 0 ↔
+      ∃ v, v < sizes.length ∧ ∃ l ∈ selLocal (sizes.getD v 0) (sels.getD v none),
+        g = (sizes.take v).sum + l := by
+  rw [globalIndices_spec]
+  simp only [List.mem_flatMap, List.mem_range, List.mem_map, Nat.zero_add]
+  constructor
+  · rintro ⟨v, hv, l, hl, rfl⟩; exact ⟨v, hv, l, hl, Nat.add_comm _ _⟩
+  · rintro ⟨v, hv, l, hl, rfl⟩; exact ⟨v, hv, l, hl, Nat.add_comm _ _⟩
+
+/-- Entry `(r, c)` of the block of output offset `ro` / input offset `co` is entry
+    `(ro + r, co + c)` of the flat Jacobian. -/
+theorem block_get (rows : List Vec) (ro rs co cs r c : Nat) (hr : r < rs) (hc : c < cs) :
+    getR ((block rows ro rs co cs).getD r []) c = getR (rows.getD (ro + r) []) (co + c) := by
+  unfold block getR
+  simp only [List.getD_eq_getElem?_getD, List.getElem?_map, List.getElem?_take, hr, if_true,
+    List.getElem?_drop]
+  cases h : rows[ro + r]? with
+  | none => simp
+  | some row => simp [hc, List.getElem?_drop]
+
 end GV.C16
